@@ -47,16 +47,33 @@ def run(prop, tier, seed, replay=None):
             jobs.append(["params", "-scenarios", sf, "-out", os.path.join(work, "rec-%d.ndjson" % w)])
         if not replay:
             jobs.append(["params", "-tok", "6" if q else "8", "-out", os.path.join(work, "tok.ndjson")])
+            # the same through the command layer of the real binary (start -p as the API's client spawns it, restart of the
+            # running DAG, retry of the canceled run); without the two pinned scenarios of the open findings
+            binary = vp.build_binary(os.path.join(work, "blackdagger"))
+            cli = [s for s in scs if not s["errNoise"] and not any(p["name"] == "" and p["class"] == "eq" for p in s["params"])]
+            cli = cli[:70] if q else cli[:400]
+            ncw = min(vp.NCPU, 8)
+            for w in range(ncw):
+                sf = os.path.join(work, "cli-%d.jsonl" % w)
+                with open(sf, "w") as f:
+                    for s in cli[w::ncw]:
+                        f.write(json.dumps(s) + "\n")
+                jobs.append(["params", "-bin", binary, "-scenarios", sf, "-out", os.path.join(work, "clirec-%d.ndjson" % w)])
+        elif json.load(open(replay))["replay"].get("cli"):
+            binary = vp.build_binary(os.path.join(work, "blackdagger"))
+            jobs = [["params", "-bin", binary, "-scenarios", jobs[0][2], "-out", os.path.join(work, "clirec-0.ndjson")]]
         env = dict(vp.GOENV, TMPDIR=work)
         with cf.ThreadPoolExecutor(max_workers=vp.NCPU) as ex:
             list(ex.map(lambda a: rc.run_vh(vh, a, env=env, timeout=3000), jobs))
         rec = os.path.join(work, "records.ndjson")
-        nrun = 0
+        nrun = ncli = 0
         with open(rec, "w") as out:
             for j in jobs:
                 with open(j[-1]) as f:
                     for line in f:
-                        if '"kind"' not in line:
+                        if '"kind":"cli"' in line:
+                            ncli += 1
+                        elif '"kind"' not in line:
                             line = '{"kind":"run",' + line.lstrip()[1:]
                             nrun += 1
                         out.write(line)
@@ -76,7 +93,7 @@ def run(prop, tier, seed, replay=None):
                 bad_vars = sorted({b for p in r["probes"].values() for b in p["bad"]})
                 rep.violation({"clause": c, "errNoise": s["errNoise"], "positionalWithEquals": any(p["name"] == "" and p["class"] == "eq" for p in s["params"]),
                                "classes": sorted({p["class"] for p in s["params"]}), "onlyOutput": set(bad_vars) <= {"OUTV", "ARG_OUTV"}},
-                              {"scenario": s, "rendered": r["rendered"], "recordedParams": r.get("recordedParams"), "probes": r["probes"]})
+                              {"scenario": s, "cli": r.get("kind") == "cli", "rendered": r["rendered"], "recordedParams": r.get("recordedParams"), "probes": r["probes"]})
         rep.cov["tokenizer_drift"] = ndrift
         samples = []
         with open(rec) as f:
@@ -85,11 +102,12 @@ def run(prop, tier, seed, replay=None):
                     o = json.loads(line)
                     samples.append({k: o.get(k) for k in ("sc", "rendered", "recordedParams", "probes")} if o["kind"] == "run" else o)
         rep.cov.update({"states": states, "transitions": transitions, "model_checking_runs": runs,
-                        "traces_validated_against_impl": consumed, "real_runs_with_retry": nrun, "tokenizer_strings": consumed - nrun,
+                        "traces_validated_against_impl": consumed, "real_runs_with_retry": nrun, "real_binary_start_restart_retry": ncli, "tokenizer_strings": consumed - nrun - ncli,
                         "evaluations": consumed, "distinct_nontrivial": consumed - 1,
                         "rule": "runs: 1 or 2 parameters, positional or named, values from 11 classes (bare, blanks, double quotes, '=', empty, UTF-8, backslashes, single quote, number, leading dashes, punctuation), "
                                 "given at start or as the DAG's default, x 13 output payload classes (blanks, padding to trim, newlines, quotes, '=', literal $VAR, backslashes, UTF-8, empty, 4096 and 70000 bytes); "
                                 "every run is started through the real loader + agent and then retried as cmd/retry.go does; consumers: adjacent step, exit handler, non-adjacent step and handler in the retry; "
+                                "cli: the first scenarios again through the real binary: client.Start (start -p \"...\"), restart while running, retry of the canceled run; "
                                 "tokenizer: every string over {word char, blank, quote, equals, backslash} up to length %s through the real parser vs the TLA+ transcription" % ("6" if q else "8"),
                         "samples": samples, "exhaustive": False})
         rep.assumptions += ["value fidelity is checked on a class alphabet, not on all strings (DESIGN.md section 6)",
